@@ -217,7 +217,7 @@ func (m *chainModel) borBuildOp(op c29Op, p *node) (*types.Header, string) {
 		h.Coinbase = sealerAddr(op.Arg % nSealerKeys)
 		label += ":unjudged"
 		resign(ki)
-	case "recent", "recent-dist", "gas-jump", "gas-used":
+	case "recent", "recent-dist", "recent-other-coinbase", "gas-jump", "gas-used":
 		// no such rule in Bor / in this router: valid header
 		if op.Mut == "gas-used" {
 			h.GasUsed = h.GasLimit + 1
